@@ -1,5 +1,4 @@
-import SciVerif.Drive.Util
-open Lean SciVerif.Drive
+import SciVerif.Drive.C18
+open SciVerif.Drive
 
-/-- C18 model driver: not built yet. -/
-def main : IO Unit := serve (fun _ => throw "C18: no model yet")
+def main : IO Unit := serve SciVerif.C18.Drive.handle
